@@ -1,8 +1,8 @@
 (** C17 - With a password set, unauthenticated connections can neither read nor write.
     Statements only; proofs in Proofs/ServerFacts.v.  Model: Model/Server.v
     process_frame (after the repair 1696ab4: SYNC/PSYNC pass the gate too). *)
-From Ferrous Require Import Base.Bytes Generated Model.Resp Model.Types Model.Server
-  Proofs.ServerFacts.
+From Ferrous Require Import Base.Bytes Generated Model.Resp Model.Types Model.Server Model.Conn
+  Proofs.ServerFacts Proofs.GateFacts.
 Open Scope Z_scope.
 
 (** Non-interference: while a password is configured and connection [c] has not
@@ -49,6 +49,34 @@ Theorem c17_tables :
   names_before_gate_in_process_frame = [] /\
   forallb (fun x => match x with (_, acts, guarded) => implb acts guarded end) pregate = true.
 Proof. exact gate_tables_ok. Qed.
+
+(** "... whatever the command, pipeline position or connection state": the same for the path
+    that handles PUBLISH, (P)SUBSCRIBE, (P)UNSUBSCRIBE and EXEC - nothing is written to anybody,
+    no subscription is made - and for whole pipelines of any length: as long as none of its
+    frames is an AUTH, every frame is answered by the gate and the server state after the
+    batch is the state before it. *)
+Theorem c17_gate_closed_pubsub_and_exec :
+  forall now s c cn req oracle pw,
+  s_password s = Some pw -> zlookup c (s_conns s) = Some cn -> c_auth cn = false ->
+  beq (req_command req) (bs "AUTH") = false ->
+  process_frame_x now s c req oracle = ([], gate_reply req, s).
+Proof. exact gate_closed_x. Qed.
+Theorem c17_gate_closed_for_pipelines :
+  forall now c cn pw fs s acc q,
+  s_password s = Some pw -> zlookup c (s_conns s) = Some cn -> c_auth cn = false ->
+  forallb (fun f => negb (beq (req_command f) (bs "AUTH"))) fs = true ->
+  serve_frames now s c fs acc q = (rev acc ++ map gate_reply fs, s, q || existsb is_quit fs).
+Proof. exact gate_closed_pipeline. Qed.
+Example c17_pipeline_example :
+  let s := connect (init_server (Some (bs "pw"))) 1 in
+  let fs := [FArray [FBulk (bs "MULTI")]; FArray [FBulk (bs "SET"); FBulk (bs "k"); FBulk (bs "v")];
+             FArray [FBulk (bs "EXEC")]; FArray [FBulk (bs "SUBSCRIBE"); FBulk (bs "ch")];
+             FArray [FBulk (bs "EVAL"); FBulk (bs "return 1"); FBulk (bs "0")]; FArray [FBulk (bs "PSYNC")];
+             FArray [FBulk (bs "ping")]] in
+  serve_frames 0 s 1 fs [] false =
+    ([FError (bs "NOAUTH"); FError (bs "NOAUTH"); FError (bs "NOAUTH"); FError (bs "NOAUTH");
+      FError (bs "NOAUTH"); FError (bs "NOAUTH"); FSimple (bs "PONG")], s, false).
+Proof. vm_compute. reflexivity. Qed.
 
 (** non-vacuity: a gated connection exists and a SET through it changes nothing *)
 Example c17_example :
